@@ -77,14 +77,14 @@ def gate1(ctx, rule="GATE-1"):
                       "%s::exec: mutation in bb%s %s the validation loop: a value can be interned/released before a later value of the batch is rejected" % (
                           name, (before or skip)[:3], "precedes or is interleaved with" if before else "can bypass"), f.loc(), fn=f.name, key="%s|%s|order" % (rule, name))
         if name == "Insert":
-            ar = [e for e in errs if outer is not None and any(tr is True and g in loops[outer] and re.search(r"Vec::<T, A>::len\(.*\) Ne .*len\(", ex) for (ex, tr, g) in S.bool_facts_at(e))]
+            ar = [e for e in errs if outer is not None and any(tr is True and g in loops[outer] and re.search(r"::len\(.*\) Ne .*::len\(", ex) for (ex, tr, g) in S.bool_facts_at(e))]
             ctx.check(bool(ar), rule, "Insert::exec checks the arity of every row", "", "no `values.len() != columns().len()` error inside the validation loop of Insert::exec",
                       f.loc(), fn=f.name, key="%s|Insert|arity" % rule)
 
 
 GATE2 = {
     "Insert": [("NotFound", r"discr\(std::collections::BTreeMap::<K, V, A>::get\(&\*p4,&p1\.table_name\)\)", ("==", 0), "unknown table"),
-               ("InvalidInput", [(r"Vec::<T, A>::len\(.*\) Ne ", True), (r"Vec::<T, A>::len\(.*\) Eq ", False), (r" Ne .*Vec::<T, A>::len\(", True), (r" Eq .*Vec::<T, A>::len\(", False)], None, "wrong number of values"),
+               ("InvalidInput", [(r"::len\(.*\) Ne ", True), (r"::len\(.*\) Eq ", False), (r" Ne .*::len\(", True), (r" Eq .*::len\(", False)], None, "wrong number of values"),
                ("InvalidInput", [(r"Column::is_valid_value", False), (r"^discr\(call@\d+:.*Iterator>?::(find|position|find_map)\)$", ("==", 1))], None, "invalid value"),
                ("InvalidData", r"BTreeMap::<K, V, A>::contains_key\(", True, "stored table already malformed (duplicate key on disk)"),
                ("AlreadyExists", r"BTreeMap::<K, V, A>::contains_key\(", True, "duplicate key (existing row)"),
@@ -350,13 +350,20 @@ def pairs(ctx):
                 "Delete (or call ValueRef::remove over them)")
     f = prog.fn(Q + "Delete::exec")
     cl = [c for c in f.closures if any(cname(prog, t) == REMOVE for b, t in c.calls())]
+    # `row.iter().for_each(|cell| cell.remove(pool))` inside the retain closure: the per-row closure is the one that builds the per-cell closure
+    foreach_form = False
+    if len(cl) == 1 and not any(cname(prog, t) == "msi::internal::expr::Expr::eval" for b, t in cl[0].calls()):
+        inner = cl[0]
+        outer = [c for c in f.closures if c is not inner and any(st["rhs"]["rv"] == "agg" and st["rhs"].get("cid") == inner.id for bl in c.blocks for st in bl["stmts"])]
+        if len(outer) == 1 and any(re.search(r"Iterator::for_each$", t.get("callee") or "") for b, t in outer[0].calls()):
+            cl, foreach_form = outer, True
     ok = len(cl) == 1
     if ok:
         c = cl[0]
         S = Sym(prog, c)
-        rm = [b for b, t in c.calls() if cname(prog, t) == REMOVE]
+        rm = [b for b, t in c.calls() if cname(prog, t) == REMOVE] or [b for b, t in c.calls() if re.search(r"Iterator::for_each$", t.get("callee") or "")]
         loops = cfg.natural_loops(c)
-        in_loop = any(rm[0] in bl for bl in loops.values())
+        in_loop = any(rm[0] in bl for bl in loops.values()) or foreach_form
         it = [S.val(t["args"][0]) for b, t in c.calls() if (t.get("callee") or "").endswith("<impl [T]>::iter")]
         dom = cfg.dominators(c)
         res = {}
@@ -648,7 +655,8 @@ def cap_panic_guard(ctx, rule="CAP-GUARD"):
             continue
         n += 1
         fs = S.bool_facts_at(s.block)
-        exhausted = any(re.search(r"::next\)$", e) and tr == ("==", 0) for (e, tr, g) in fs)
+        exhausted = any(re.search(r"::next\)$", e) and tr == ("==", 0) for (e, tr, g) in fs) or \
+            any(re.fullmatch(r"discr\(call@\d+:.*Iterator>?::(position|rposition|find|find_map)\)", e) and tr in (("==", 0), ("notin", (1,))) for (e, tr, g) in fs)
         lo, hi, ex = interval_of(fs, "std::vec::Vec::<T, A>::len(&*p1.strings)")
         ok = exhausted and lo in (65535, 16777215)
         ctx.check(ok, rule, "incref capacity panic at the limit only", "after the search, len >= %s" % lo,
